@@ -1079,4 +1079,171 @@ Proof.
     + rewrite (irl_rd_same i_eq s s3 nd R3); [exact Er|]. intros LV q i j ((Ec&_)&_). exact Ec.
     + intros i Hn. unfold Rm. cbn. repeat split; auto; [intros e He; congruence|apply legs_step_refl].
 Qed.
+
+(* ---- sort_contraction_indices ---- *)
+Lemma enum_ok_perm nd v v' lg : is_lr n nd = false -> enum_ok n nd v lg -> Permutation v' v -> enum_ok n nd v' lg.
+Proof.
+  unfold enum_ok. intros -> [ND H] HP. split; [apply (Permutation_NoDup (Permutation_sym HP)), ND|].
+  intros j. rewrite <- H. split; apply Permutation_in; [exact HP|apply Permutation_sym, HP].
+Qed.
+Lemma enum_ok_keys nd v lg : is_lr n nd = false -> NoDup (lkeys lg) -> Permutation v (lkeys lg) -> enum_ok n nd v lg.
+Proof.
+  unfold enum_ok. intros -> ND HP. split; [apply (Permutation_NoDup (Permutation_sym HP)), ND|].
+  intros j. split; apply Permutation_in; [exact HP|apply Permutation_sym, HP].
+Qed.
+Lemma sort_key2_perm k xs : Permutation (sort_key2 k xs) xs.
+Proof. apply sort_by_perm. Qed.
+
+(* what a sort step leaves alone *)
+Definition sfr (s s' : tstate) : Prop :=
+  children s' = children s /\ sliced s' = sliced s /\ (err s = true -> err s' = true).
+Lemma sfr_refl s : sfr s s.
+Proof. unfold sfr. auto. Qed.
+Lemma sfr_trans s1 s2 s3 : sfr s1 s2 -> sfr s2 s3 -> sfr s1 s3.
+Proof. unfold sfr. intros (A1&A2&A3) (B1&B2&B3). repeat split; try congruence; auto. Qed.
+Lemma srel_sfr (R : node -> ninfo -> ninfo -> Prop) s s' : srel R s s' -> sfr s s'.
+Proof. intros (_&A&B&C). unfold sfr. auto. Qed.
+Lemma upd_sfr nd f s : sfr s (upd_info nd f s).
+Proof.
+  destruct (upd_info_fields nd f s) as (F1&F2&_). unfold sfr. rewrite F1, F2. split; [reflexivity|]. split; [reflexivity|].
+  unfold upd_info. destruct (nget nd (info s)); cbn; auto.
+Qed.
+Lemma sfr_err s s' : sfr s s' -> err s' = false -> err s = false.
+Proof. intros (_&_&E) H. destruct (err s); [rewrite E in H by reflexivity; discriminate|reflexivity]. Qed.
+
+Lemma not_lr p l r s : InvC n s -> nget p (children s) = Some (l, r) ->
+  is_lr n p = (Nat.eqb (length p) N) /\ (length l =? N) = false /\ (length r =? N) = false.
+Proof.
+  intros HI E. destruct (entry_good n s p l r HI E) as (Gp & _ & _).
+  pose proof (good_len n HN p Gp) as Lp. destruct (chok_dec n HN _ _ _ _ (InvC_chok s HI) E) as [Ll Lr].
+  assert (HI' := HI). destruct HI' as [(Hc&_) _]. pose proof (leaf_not_parent n HN _ p l r Hc E) as Hp1.
+  unfold is_lr. apply Nat.eqb_neq in Hp1. rewrite Hp1. cbn [orb]. split; [reflexivity|].
+  split; apply Nat.eqb_neq; lia.
+Qed.
+
+Lemma sort_step_A moc mcc s p l r : InvC n s -> PAe n s -> nget p (children s) = Some (l, r) ->
+  PAe n (sort_step n moc mcc s (p, (l, r))) /\ sfr s (sort_step n moc mcc s (p, (l, r))).
+Proof.
+  intros HI HP E. destruct (entry_good n s p l r HI E) as (Gp & Gl & Gr). unfold sort_step.
+  destruct (g_inds_A s p HI HP Gp) as (P1 & R1 & C1). pose proof (inv_g_inds n HN Hout s p HI Gp) as I1.
+  destruct (g_inds n s p) as [s1 pi]. cbn [fst snd] in *.
+  destruct (g_inds_A s1 l I1 P1 Gl) as (P2 & R2 & C2). pose proof (inv_g_inds n HN Hout s1 l I1 Gl) as I2.
+  destruct (g_inds n s1 l) as [s2 li]. cbn [fst snd] in *.
+  destruct (g_inds_A s2 r I2 P2 Gr) as (P3 & R3 & C3). pose proof (inv_g_inds n HN Hout s2 r I2 Gr) as I3.
+  destruct (g_inds n s2 r) as [s3 ri]. cbn [fst snd] in *.
+  assert (R03 : irl s s3) by (eapply irl_trans; [eapply irl_trans; eassumption|exact R3]).
+  assert (E3 : nget p (children s3) = Some (l, r)) by (destruct R03 as (_&Ec&_); rewrite Ec; exact E).
+  destruct (not_lr p l r s3 I3 E3) as (Hlrp & HlN & HrN).
+  set (X := if moc && negb (Nat.eqb (length p) N) then _ else (s3, pi)).
+  assert (H4 : InvC n (fst X) /\ PAe n (fst X) /\ sfr s3 (fst X)).
+  { unfold X. destruct (moc && negb (Nat.eqb (length p) N)) eqn:Em; cbn [fst]; [|split; [exact I3|]; split; [exact P3|apply sfr_refl]].
+    split; [apply inv_upd_neutral; [intros; apply cs_inds|exact I3]|]. split; [|apply upd_sfr].
+    intros He. destruct (upd_err _ _ _ He) as [He3 _]. apply PA_upd; [apply P3, He3|].
+    intros i Hi [A1 A2]. split; [exact A1|]. intros _ v Hv. cbn in Hv. injection Hv as <-.
+    assert (Hp3 : rd i_inds s3 p = Some pi).
+    { apply (irl_inds _ _ p pi R3), (irl_inds _ _ p pi R2), C1. apply (irl_err _ _ R2), (irl_err _ _ R3), He3. }
+    unfold rd in Hp3. rewrite Hi in Hp3. destruct (A2 eq_refl pi Hp3) as (lg & El & Hen). exists lg. split; [exact El|].
+    apply andb_true_iff in Em. destruct Em as [_ Em]. apply negb_true_iff in Em.
+    apply (enum_ok_perm p pi); [rewrite Hlrp; exact Em|exact Hen|apply sort_key2_perm]. }
+  destruct X as [s4 pi']. cbn [fst] in H4. destruct H4 as (I4 & P4 & F4).
+  assert (F04 : sfr s s4) by (eapply sfr_trans; [apply (srel_sfr _ _ _ R03)|exact F4]).
+  destruct mcc; [|split; [exact P4|exact F04]].
+  (* the step that re-orders a child c *)
+  assert (Hchild : forall c s5 (k : ix -> Z * Z), good_node n c -> (length c =? N) = false -> InvC n s5 -> PAe n s5 ->
+            let X := if negb (Nat.eqb (length c) 1)
+                     then let '(sa, lg) := g_legs n s5 c in
+                          (upd_info c (w_inds (Some (sort_key2 k (lkeys lg)))) sa)
+                     else s5 in
+            InvC n X /\ PAe n X /\ sfr s5 X).
+  { intros c s5 k Gc HcN I5 P5. cbn zeta. destruct (negb (Nat.eqb (length c) 1)) eqn:Ec1; [|split; [exact I5|]; split; [exact P5|apply sfr_refl]].
+    pose proof (g_legs_crel n HN s5 c (InvC_chok s5 I5)) as Ha. pose proof (inv_g_legs n HN Hout s5 c I5 Gc) as Ia.
+    pose proof (g_legs_cached n HN s5 c) as Ca. destruct (g_legs n s5 c) as [sa lg]. cbn [fst snd] in *.
+    split; [apply inv_upd_neutral; [intros; apply cs_inds|exact Ia]|].
+    split; [|eapply sfr_trans; [apply (srel_sfr _ _ _ Ha)|apply upd_sfr]].
+    intros He. destruct (upd_err _ _ _ He) as [Hea Hk]. destruct Ca as [Ca|Ca]; [contradiction|].
+    apply PA_upd; [apply (PAe_crel n s5 sa P5 Ha), Hea|]. intros i Hi [A1 A2]. split; [exact A1|].
+    intros _ v Hv. cbn in Hv. injection Hv as <-. unfold rd in Ca. rewrite Hi in Ca. exists lg. split; [exact Ca|].
+    apply enum_ok_keys; [unfold is_lr; apply negb_true_iff in Ec1; rewrite Ec1, HcN; reflexivity| |apply sort_key2_perm].
+    apply Nat.eqb_neq in HcN. apply (InvC_legs_keys sa c i lg Ia Hi Ca HcN). }
+  set (Y := if negb (Nat.eqb (length l) 1) then _ else (s4, li)).
+  assert (H5 : InvC n (fst Y) /\ PAe n (fst Y) /\ sfr s4 (fst Y)).
+  { pose proof (Hchild l s4 (fun j => (find_z j ri, find_z j pi')) Gl HlN I4 P4) as H. cbn zeta in H.
+    unfold Y. destruct (negb (Nat.eqb (length l) 1)); [|exact H]. destruct (g_legs n s4 l) as [sa lg]. exact H. }
+  destruct Y as [s5 li']. cbn [fst] in H5. destruct H5 as (I5 & P5 & F5).
+  pose proof (Hchild r s5 (fun j => (find_z j pi', find_z j li')) Gr HrN I5 P5) as H6. cbn zeta in H6.
+  destruct (negb (Nat.eqb (length r) 1)).
+  - destruct (g_legs n s5 r) as [sa lg]. destruct H6 as (_ & P6 & F6). split; [exact P6|].
+    eapply sfr_trans; [exact F04|]. eapply sfr_trans; eassumption.
+  - split; [exact P5|eapply sfr_trans; eassumption].
+Qed.
+Lemma sort_fold_A moc mcc nodes : forall s, InvC n s -> PAe n s ->
+  (forall e, In e nodes -> nget (fst e) (children s) = Some (snd e)) ->
+  PAe n (fold_left (sort_step n moc mcc) nodes s) /\ sfr s (fold_left (sort_step n moc mcc) nodes s).
+Proof.
+  induction nodes as [|[p [l r]] nodes IH]; intros s HI HP Hn; cbn [fold_left]; [split; [exact HP|apply sfr_refl]|].
+  pose proof (Hn _ (or_introl eq_refl)) as E. cbn [fst snd] in E.
+  destruct (sort_step_A moc mcc s p l r HI HP E) as [P1 F1].
+  destruct (entry_good n s p l r HI E) as (Gp & Gl & Gr).
+  pose proof (inv_sort_step n HN Hout moc mcc s p l r HI Gp Gl Gr) as I1.
+  destruct (IH _ I1 P1) as [P2 F2].
+  - intros e He. destruct F1 as (Ec&_). rewrite Ec. apply Hn. right. exact He.
+  - split; [exact P2|eapply sfr_trans; eassumption].
+Qed.
+Lemma keyed_crel (g : tstate -> node -> tstate * Z) :
+  (forall s nd, chok (children s) -> crel n s (fst (g s nd))) ->
+  forall (L : list (node * (node * node))) s acc, chok (children s) ->
+  crel n s (fst (fold_left (fun acc c => let '(sa, v) := g (fst acc) (fst c) in (sa, snd acc ++ [(v, c)])) L (s, acc))).
+Proof.
+  intros Hg. induction L as [|c L IH]; intros s acc Hc; cbn [fold_left]; [apply crel_refl|].
+  cbn [fst snd]. pose proof (Hg s (fst c) Hc) as H. destruct (g s (fst c)) as [sa v]. cbn [fst] in H.
+  eapply crel_trans; [exact H|]. apply IH. apply (crel_chok n _ _ H Hc).
+Qed.
+Lemma PAe_reset_recipes s : PAe n s -> PAe n (reset_recipes s).
+Proof.
+  intros HP He. apply PA_reset_recipes. apply HP. destruct (err s) eqn:E; [|reflexivity].
+  rewrite (reset_recipes_err s E) in He. discriminate.
+Qed.
+Lemma PAe_reset_inds s : PAe n s -> PAe n (reset_inds s).
+Proof.
+  intros HP He. apply PA_reset_inds. apply HP. destruct (err s) eqn:E; [|reflexivity].
+  rewrite (reset_inds_err s E) in He. discriminate.
+Qed.
+
+Theorem sort_inds_A pr moc mcc reset s : InvC n s -> PAe n s -> PAe n (sort_inds n pr moc mcc reset s).
+Proof.
+  intros HI HP. unfold sort_inds.
+  set (s0 := if reset then reset_inds s else s).
+  assert (H0 : InvC n s0) by (unfold s0; destruct reset; [apply reset_inds_inv, HI|exact HI]).
+  assert (P0 : PAe n s0) by (unfold s0; destruct reset; [apply PAe_reset_inds, HP|exact HP]).
+  assert (Hin_ch : forall c, In c (children s0) -> nget (fst c) (children s0) = Some (snd c)).
+  { intros [p lr] Hc. apply In_nget; [apply H0|exact Hc]. }
+  assert (Hfin : forall s1 nodes, InvC n s1 -> PAe n s1 -> children s1 = children s0 ->
+            (forall e, In e nodes -> nget (fst e) (children s0) = Some (snd e)) ->
+            PAe n (reset_recipes (fold_left (sort_step n moc mcc) nodes s1))).
+  { intros s1 nodes I1 P1 Ec Hn. apply PAe_reset_recipes. apply sort_fold_A; [exact I1|exact P1|].
+    intros e He. rewrite Ec. apply Hn, He. }
+  destruct pr.
+  - destruct (keyed_fold n (g_flops n)) with (L := children s0) (s := s0) (acc := @nil (Z * (node * (node * node)))) as (A & B & C).
+    + intros s' nd HI' Hch. assert (HG : good_node n nd) by (apply (child_key_good n s' nd (proj1 HI')), nget_in_keys, Hch).
+      split; [apply inv_g_flops; [assumption|assumption|exact HI'|exact HG|right; left; exact Hch]|apply g_flops_children; [assumption|assumption|exact HI'|exact HG|right; left; exact Hch]].
+    + exact H0.
+    + intros c Hc. rewrite (Hin_ch c Hc). discriminate.
+    + pose proof (keyed_crel (g_flops n) (g_flops_crel n HN) (children s0) s0 [] (InvC_chok s0 H0)) as K.
+      cbn zeta in A, B, C. destruct (fold_left _ (children s0) (s0, [])) as [sa keyed]. cbn [fst snd] in *. cbn [app map] in C.
+      apply Hfin; [exact A|apply (PAe_crel n s0 sa P0 K)|exact B|]. intros e He. apply Hin_ch. rewrite <- C.
+      apply (Permutation_in _ (Permutation_map snd (sort_by_perm (fun a b : Z * (node * (node * node)) => (fst a <=? fst b)%Z) keyed))), He.
+  - destruct (keyed_fold n (g_size n)) with (L := children s0) (s := s0) (acc := @nil (Z * (node * (node * node)))) as (A & B & C).
+    + intros s' nd HI' Hch. assert (HG : good_node n nd) by (apply (child_key_good n s' nd (proj1 HI')), nget_in_keys, Hch).
+      split; [apply inv_g_size; assumption|apply g_size_children; assumption].
+    + exact H0.
+    + intros c Hc. rewrite (Hin_ch c Hc). discriminate.
+    + pose proof (keyed_crel (g_size n) (g_size_crel n HN) (children s0) s0 [] (InvC_chok s0 H0)) as K.
+      cbn zeta in A, B, C. destruct (fold_left _ (children s0) (s0, [])) as [sa keyed]. cbn [fst snd] in *. cbn [app map] in C.
+      apply Hfin; [exact A|apply (PAe_crel n s0 sa P0 K)|exact B|]. intros e He. apply Hin_ch. rewrite <- C.
+      apply (Permutation_in _ (Permutation_map snd (sort_by_perm (fun a b : Z * (node * (node * node)) => (fst a <=? fst b)%Z) keyed))), He.
+  - destruct (traverse n s0) as [nodes|] eqn:Et; [|apply PAe_err].
+    apply Hfin; [exact H0|exact P0|reflexivity|]. apply (traverse_entries n s0 nodes Et).
+  - destruct (descend n s0) as [nodes|] eqn:Et; [|apply PAe_err].
+    apply Hfin; [exact H0|exact P0|reflexivity|]. apply (descend_entries n s0 nodes Et).
+Qed.
 End InvA2.
